@@ -19,6 +19,7 @@ REQUIRED_THEOREMS = [
     "Acn.C12.row_indep_of_listing_order", "Acn.C12.align_refines", "Acn.C12.align_pointwise",
     "Acn.C12.failed_op_changes_nothing", "Acn.C12.register_refused_after_constraint",
     "Acn.C12.names_nodup_add", "Acn.C12.names_nodup_remove", "Acn.C12.subset_query",
+    "Acn.C12.update_failure_is_removal", "Acn.C12.row_entry", "Acn.C12.constructors_keys_nodup",
 ]
 BUDGET = {"quick": 700, "thorough": 12000, "search": 4000}
 TRUSTED = [
@@ -360,6 +361,11 @@ def run_impl(case):
     for o in case["ops"]:
         op = o["op"]
         st = {"err": None}
+        if op == "query" and len(net._phase_angles) != len(net.station_ids):
+            # an id was registered twice: the phase-angle vector is longer than the station list and
+            # constraint_current cannot be evaluated (outside C12: the query is not judged)
+            steps.append({"err": None, "abstain": True})
+            continue
         if op == "query":
             try:
                 res = net.constraint_current(np.array(o["sched"], dtype=float), constraints=o["names"],
@@ -461,6 +467,8 @@ def _close_rows(a, b):
 def compare(case, obs, model):
     out = []
     for i, (o, a, m) in enumerate(zip(case["ops"], obs["steps"], model["steps"])):
+        if a.get("abstain"):
+            continue
         if a.get("skipped"):
             out.append(f"step {i}: implementation's expression value is not a Current ({a['taint'][0]['node']} is "
                        f"{a['taint'][0]['type']}); the model evaluates it")
@@ -538,7 +546,8 @@ def oracle(case, obs):
     for i, (o, st) in enumerate(zip(case["ops"], obs["steps"])):
         op = o["op"]
         if op == "query":
-            _oracle_query(i, o, st, stations, frozen, cons, fail)
+            if not st.get("abstain"):
+                _oracle_query(i, o, st, stations, frozen, cons, fail)
             continue
         if st.get("skipped"):
             first = st["taint"][0]
@@ -688,7 +697,7 @@ def nontrivial(case, obs):
             composite = True
         if o["op"] in ("remove", "update") and st["err"] is None and len(st["index"]) >= 1:
             touched = True
-        if o["op"] == "query" and st["err"] is None and o["names"] is not None and st["shape"][0] >= 1:
+        if o["op"] == "query" and st["err"] is None and not st.get("abstain") and o["names"] is not None and st["shape"][0] >= 1:
             touched = True
     return composite and touched
 
@@ -735,7 +744,9 @@ def features(case, obs):
                     out.append("add:first_row_path")
             elif op == "update" and st["err"] == "KeyError" and len(st["index"]) < rows_before:
                 out.append("update:not_atomic_row_lost")
-        if op == "query" and st["err"] is None:
+        if op == "query" and st.get("abstain"):
+            out.append("query:abstain_reregistered")
+        elif op == "query" and st["err"] is None:
             out.append("query:names=" + ("None" if o["names"] is None else "subset"))
             out.append("query:times=" + ("None" if o["times"] is None else "subset"))
             if o["times"] and any(t < 0 for t in o["times"]):
